@@ -65,6 +65,6 @@ def main(tier):
                 params['k%d' % i] = kd
                 fl['l%d' % i] = 2
             jobs.append(('cmd.VerifC09FileOnce', dict(fixlen=fl, params=params, unwind=40, exclude=exclude, timeout_ms=120000, terminal_obligations=(), hooks={'fixed_map_order': True})))
-    rs, viol = ck.run('file-once', jobs, job_timeout=150 if tier == 'quick' else 900, bounds={'lines': '0..%d' % K, 'with_header': 'header (without / with the blank line after it) + 0..%d lines (empty | 2 symbolic bytes)' % (1 if tier == 'quick' else 2), 'line_kinds': 'empty | header line 1 | header line 2 | 2 symbolic bytes', 'final_newline': 'symbolic'})
+    rs, viol = ck.run('file-once', jobs, job_timeout=330 if tier == 'quick' else 1500, bounds={'lines': '0..%d' % K, 'with_header': 'header (without / with the blank line after it) + 0..%d lines (empty | 2 symbolic bytes)' % (1 if tier == 'quick' else 2), 'line_kinds': 'empty | header line 1 | header line 2 | 2 symbolic bytes', 'final_newline': 'symbolic'})
     ck.triage(viol)
     return ck.finish()
